@@ -122,6 +122,22 @@ func (c *Calcium) doCreateWorkloads(ctx context.Context, opts *types.DeployOptio
 						return err
 					}
 
+					// the transaction does not roll back a failed condition, so give back
+					// what has been allocated so far if a later step of the loop below fails
+					allocatedNodenames := []string{}
+					defer func() {
+						if err == nil {
+							return
+						}
+						rollbackCtx, cancel := context.WithTimeout(utils.NewInheritCtx(ctx), c.config.GlobalTimeout)
+						defer cancel()
+						for _, nodename := range allocatedNodenames {
+							if e := c.rmgr.RollbackAlloc(rollbackCtx, nodename, workloadResourcesMap[nodename]); e != nil {
+								logger.Errorf(ctx, e, "failed to rollback allocated resources on node %s", nodename)
+							}
+						}
+					}()
+
 					// commit changes
 					processingCommits = make(map[string]wal.Commit)
 					for nodename, deploy := range deployMap {
@@ -129,6 +145,7 @@ func (c *Calcium) doCreateWorkloads(ctx context.Context, opts *types.DeployOptio
 						if workloadResourcesMap[nodename], engineParamsMap[nodename], err = c.rmgr.Alloc(ctx, nodename, deploy, opts.Resources); err != nil {
 							return err
 						}
+						allocatedNodenames = append(allocatedNodenames, nodename)
 						processing := opts.GetProcessing(nodename)
 						if processingCommits[nodename], err = c.wal.Log(eventProcessingCreated, processing); err != nil {
 							return err
